@@ -176,3 +176,102 @@ def _process_probe(ctx, res, joblib, T, rng, combos, runs, cases):
             res.fail("unpicklable-task-exception-replaced:" + backend, case, dict(first=first))
         if second != ("returned", [0, 3, 6]):
             res.fail("not-reusable-after-failure", case, dict(second=second))
+
+
+def legacy_backend_probe(ctx, res, props, runs):
+    """C01/C04 on a backend WITHOUT retrieve-callback support (the legacy / third-party protocol of
+    `ParallelBackendBase`: the caller fetches results itself through `backend.retrieve_result(job)`): submission has
+    latency and completion notifications arrive on the pool's threads, a little after the result is available."""
+    if not ({"C01", "C04"} & set(props)):
+        return
+    joblib = core.use_repo()
+    from concurrent.futures import ThreadPoolExecutor
+    from joblib._parallel_backends import ParallelBackendBase
+    rng = ctx.rng("legacy-backend")
+
+    class Legacy(ParallelBackendBase):
+        supports_retrieve_callback = False
+        uses_threads = True
+        supports_sharedmem = True
+
+        def __init__(self, nj, lat, **kw):
+            super().__init__(**kw)
+            self.nj, self.lat, self._pool = nj, lat, None
+
+        def effective_n_jobs(self, n_jobs):
+            return self.nj
+
+        def configure(self, n_jobs=1, parallel=None, **kw):
+            self.parallel = parallel
+            self._pool = ThreadPoolExecutor(self.nj)
+            return self.nj
+
+        def submit(self, func, callback=None):
+            time.sleep(self.lat)
+
+            def done(fut):
+                time.sleep(self.lat / 2)
+                callback(fut)
+
+            fut = self._pool.submit(func)
+            fut.add_done_callback(done)
+            return fut
+
+        def retrieve_result(self, out, timeout=None):
+            return out.result()
+
+        def terminate(self):
+            if self._pool is not None:
+                self._pool.shutdown()
+                self._pool = None
+
+    counts = {}
+    cl = threading.Lock()
+
+    def task(k, fail):
+        with cl:
+            counts[k] = counts.get(k, 0) + 1
+        if fail:
+            raise ValueError(k)
+        return k * 3
+
+    for r in range(runs):
+        nj = rng.choice([2, 3])
+        pd = rng.choice([1, 2, "2*n_jobs", "all"])
+        n = rng.choice([6, 9, 12])
+        failing = rng.randrange(n) if rng.random() < 0.3 else None
+        lat = rng.choice([0.01, 0.03])
+        case = dict(kind="native-legacy-backend", n_jobs=nj, pre_dispatch=pd, n=n, failing=failing, latency=lat)
+        counts.clear()
+        box = {}
+
+        def body():
+            try:
+                be = Legacy(nj, lat, nesting_level=0)
+                box["out"] = joblib.Parallel(n_jobs=nj, backend=be, batch_size=1, pre_dispatch=pd)(
+                    joblib.delayed(task)(k, k == failing) for k in range(n))
+            except BaseException as e:  # noqa: BLE001
+                box["exc"] = e
+
+        t = threading.Thread(target=body, daemon=True)
+        t.start()
+        t.join(60)
+        res.evaluations += 1
+        res.count("native-legacy-backend-runs")
+        res.nontrivial.add(("legacy", nj, str(pd), n, failing, lat))
+        if t.is_alive():
+            res.fail("call-never-returns", case, "legacy-protocol backend run did not return within 60 s")
+            continue
+        if failing is None:
+            if "exc" in box:
+                if "C01" in props:
+                    res.fail("unexpected-exception:" + type(box["exc"]).__name__, case, repr(box["exc"]))
+            elif box.get("out") != [k * 3 for k in range(n)] and "C01" in props:
+                res.fail("wrong-results", case, dict(got=box.get("out")))
+            if any(v > 1 for v in counts.values()) and "C01" in props:
+                res.fail("task-executed-twice", case, dict(counts))
+        elif "C04" in props:
+            if "exc" not in box:
+                res.fail("failure-not-surfaced", case, dict(got=box.get("out")))
+            elif not (isinstance(box["exc"], ValueError) and box["exc"].args == (failing,)):
+                res.fail("wrong-exception:" + type(box["exc"]).__name__, case, repr(box["exc"]))
